@@ -138,11 +138,34 @@ def build(case, tmpdir=None):
             ni += 1
         elif it["t"] == "include":
             body = []
-            for L in it["levels"]:
+            for k, L in enumerate(it["levels"]):
                 body.append("#" * L + f" H{hi}\n\nP{hi}\n")
                 levels.append(L + it["offset"])
                 hlines.append(None)
                 hi += 1
+                # between the headings of the included file: constructs that trigger a nested render (which must not
+                # disturb the heading offset) and headings nested in containers (rubrics must record level + offset)
+                extra = (it.get("between") or [])
+                if k < len(extra) and extra[k]:
+                    kind, NL = extra[k]
+                    if kind == "note":
+                        body.append("```{note}\nnested *render*\n```\n")
+                    elif kind == "role":
+                        body.append("text {emphasis}`role` text\n")
+                    elif kind == "div":
+                        body.append(":::cls\ndiv body\n:::\n")
+                    elif kind == "quoteh":
+                        body.append("> lead\n>\n> " + "#" * NL + f" N{ni}\n")
+                        nested.append((f"N{ni}", NL + it["offset"]))
+                        ni += 1
+                    elif kind == "listh":
+                        body.append("- lead\n\n  " + "#" * NL + f" N{ni}\n")
+                        nested.append((f"N{ni}", NL + it["offset"]))
+                        ni += 1
+                    elif kind == "noteh":
+                        body.append("```{note}\nlead\n\n" + "#" * NL + f" N{ni}\n```\n")
+                        nested.append((f"N{ni}", NL + it["offset"]))
+                        ni += 1
             fname = f"inc{inc}.md"
             inc += 1
             if tmpdir is not None:
@@ -179,7 +202,9 @@ def check_case(acc, case) -> list[dict]:
             return [mk(f"C05:render-raises:{type(exc).__name__}", case, "document", f"{type(exc).__name__}: {exc}")]
         text_wo = None
         if nested:
-            case2 = {"items": [it for it in case["items"] if it["t"] != "nested"]}
+            case2 = {"items": [
+                ({**it, "between": [None if (b and b[0] in ("quoteh", "listh", "noteh")) else b for b in (it.get("between") or [])]}
+                 if it["t"] == "include" else it) for it in case["items"] if it["t"] != "nested"]}
             text_wo, _, _, _ = build(case2, tmp)
             doc_wo, _ = front.docutils_parse(text_wo, source_path=src, settings=settings)
     finally:
@@ -232,7 +257,17 @@ def check_case(acc, case) -> list[dict]:
     # nested headings: rubrics with their level, no section, structure unaffected
     if nested:
         rub = {r.astext(): r for r in doc.findall(nodes.rubric)}
-        wrap_of = {f"N{j}": it["wrap"] for j, it in enumerate(x for x in case["items"] if x["t"] == "nested")}
+        wrap_of = {}
+        j = 0
+        for it in case["items"]:     # same numbering as build(): markers N<j> in source order, includes' inner ones too
+            if it["t"] == "nested":
+                wrap_of[f"N{j}"] = it["wrap"]
+                j += 1
+            elif it["t"] == "include":
+                for k in range(len(it["levels"])):
+                    b = (it.get("between") or [])
+                    if k < len(b) and b[k] and b[k][0] in ("quoteh", "listh", "noteh"):
+                        j += 1
         for marker, L in nested:
             r = rub.get(marker)
             if r is None:
@@ -297,6 +332,24 @@ def sub_enum(acc, shard, nshards, tier, seed):
                             acc.known_hits[v["signature"]] += 1
                         elif len(acc.violations) < 8 and all(v["signature"] != x["signature"] for x in acc.violations):
                             acc.violations.append(v)
+    # heading-offset includes: every offset x every in-between construct x (level, next level)
+    for off in range(0, 4):
+        for kind in ("note", "role", "div", "quoteh", "listh", "noteh"):
+            for L1 in (1, 2):
+                for L2 in (1, 2, 3):
+                    for NL in (1, 3):
+                        i += 1
+                        if i % nshards != shard:
+                            continue
+                        case = {"items": [{"t": "h", "level": 1},
+                                          {"t": "include", "offset": off, "levels": [L1, L2, L2], "explicit0": True,
+                                           "between": [(kind, NL), None, (kind, NL)]},
+                                          {"t": "h", "level": 2}]}
+                        for v in check_case(acc, case):
+                            if kn.matches(v):
+                                acc.known_hits[v["signature"]] += 1
+                            elif len(acc.violations) < 8 and all(v["signature"] != x["signature"] for x in acc.violations):
+                                acc.violations.append(v)
     acc.exhaustive = True
     acc.extra["enumerated_sequence_length"] = maxlen
     acc.extra["container_kinds"] = len(ALL_WRAPS)
@@ -309,8 +362,10 @@ item_st = st.one_of(
     st.builds(lambda k: {"t": "fill", "kind": k}, st.sampled_from(sorted(FILLERS))),
     st.builds(lambda L, w: {"t": "nested", "level": L, "wrap": w}, st.integers(1, 6), st.sampled_from(ALL_WRAPS)),
 )
-include_st = st.builds(lambda o, ls, e: {"t": "include", "offset": o, "levels": ls, "explicit0": e},
-                       st.integers(0, 3), st.lists(st.integers(1, 6), min_size=1, max_size=4), st.booleans())
+between_st = st.one_of(st.none(), st.tuples(st.sampled_from(["note", "role", "div", "quoteh", "listh", "noteh"]), st.integers(1, 4)))
+include_st = st.builds(lambda o, ls, e, b: {"t": "include", "offset": o, "levels": ls, "explicit0": e, "between": b},
+                       st.integers(0, 3), st.lists(st.integers(1, 6), min_size=1, max_size=4), st.booleans(),
+                       st.lists(between_st, max_size=4))
 
 
 @st.composite
